@@ -34,14 +34,24 @@ def run(ck, ctx):
                      "delta is own-origin and the clock is rebuilt in replay order (shared with C06 R06.3 / C08 R08.5)")
     ck.rule("R11.8", "the WAL part of recovery returns every intact entry: entries are yielded only after length and CRC validation, a file "
                      "ends at its first undecodable entry and an unreadable file is skipped, not fatal (shared with C10 R10.1 / R10.3)")
+    ck.rule("R11.9", "recovery is a fold of lattice joins: every merge function recovered updates pass through is certified commutative and "
+                     "idempotent by shape (the C07 certificate R07.0-R07.2, shared; the type-change associativity hazard R07.3 stays "
+                     "recorded with C07/C06) - segment order, duplicated updates and repeated recovery cannot change the result only if "
+                     "the merge has these laws")
+    from . import c07 as _c07
+    _c07.certify(ck, rid=lambda r: "R11.9", floor_id="R11.9", skip_rules=("R07.3",))
+    from . import c12 as _c12
+    ck.rule("R11.10", _c12.WRITER_TEXT + " (shared with C12 R12.8)")
     for cfg in ctx.configs:
         prog = ctx.prog(cfg)
         ck.configs.append(cfg)
         ck.fn_count += len(prog.fns)
+        _c12.writer_rule(ck, prog, cfg, "R11.10")
         from . import c10 as _c10
         from .core import Alias as _Alias2
         _c10._r101(_Alias2(ck, "R10.1", "R11.8", skip=("R10.2",)), prog, cfg)
         _c10._r103(_Alias2(ck, "R10.3", "R11.8"), prog, cfg)
+        _c10.r109(ck, prog, cfg, "R11.8")
         from . import c06, c08
         from .core import Alias
         c06._r063(Alias(ck, "R06.3", "R11.7"), prog, cfg)
